@@ -680,6 +680,7 @@ func verifReencodeNodeID(b []byte, k int) {
 	}
 	e, eerr := v.Encode()
 	verifAssert("C03:nodeid-encodes", eerr == nil && len(e) == n)
+	verifCanary("C03:canary-nodeid-always-seven-bytes", len(e) == 7)
 	w := new(NodeID)
 	m, derr := w.Decode(e)
 	verifAssert("C03:nodeid-redecodes", derr == nil && m == len(e))
